@@ -188,7 +188,11 @@ func (b *assignmentBuilder) structFieldAndStructGettersAndFields(lhs bmodel.Node
 			}
 		}
 
-		if c, ok := b.castNode(lhs.ExprType(), rhs); ok {
+		// A struct field is copied as a whole only when no notation addresses one of its members;
+		// otherwise it is matched member by member so that the notation takes effect.
+		memberwise := util.IsStructType(lhs.ExprType()) && util.IsStructType(rhs.ExprType()) && b.hasNotationBelow(lhs)
+
+		if c, ok := b.castNode(lhs.ExprType(), rhs); ok && !memberwise {
 			rhsExpr := c.AssignExpr()
 			logger.Printf("%v: assignment found: %v = %v", methodPosStr, lhsExpr, rhsExpr)
 			a = gmodel.SimpleField{LHS: lhsExpr, RHS: rhsExpr, Error: c.ReturnsError()}
@@ -235,6 +239,56 @@ func (b *assignmentBuilder) structFieldAndStructGettersAndFields(lhs bmodel.Node
 
 	logger.Warnf("%v: no assignment for %v [%v]", methodPosStr, lhsExpr, b.imports.TypeName(lhs.ExprType()))
 	return gmodel.NoMatchField{LHS: lhsExpr}, nil
+}
+
+// hasNotationBelow reports whether a :skip, :conv, :map or :literal notation addresses a
+// field below the given destination struct field.
+func (b *assignmentBuilder) hasNotationBelow(lhs bmodel.Node) bool {
+	path := lhs.MatcherExpr()
+	for _, converter := range b.opts.Converters {
+		if converter.Dst().HasPrefix(path) {
+			return true
+		}
+	}
+	for _, mapper := range b.opts.NameMapper {
+		if mapper.Dst().HasPrefix(path) {
+			return true
+		}
+	}
+	for _, mapper := range b.opts.TemplatedNameMapper {
+		if mapper.Dst().HasPrefix(path) {
+			return true
+		}
+	}
+	for _, setter := range b.opts.Literals {
+		if setter.Dst().HasPrefix(path) {
+			return true
+		}
+	}
+	if len(b.opts.SkipFields) == 0 {
+		return false
+	}
+
+	// :skip takes patterns, so the members have to be tried one by one.
+	found := false
+	var walk func(node bmodel.Node, depth int)
+	walk = func(node bmodel.Node, depth int) {
+		bmodel.IterateStructFields(node, func(field bmodel.Node) (done bool) {
+			if !b.isStructFieldAccessible(node, field.ObjName()) {
+				return
+			}
+			if b.opts.ShouldSkip(field.MatcherExpr()) {
+				found = true
+				return true
+			}
+			if depth < 8 && util.IsStructType(field.ExprType()) {
+				walk(field, depth+1)
+			}
+			return found
+		})
+	}
+	walk(lhs, 0)
+	return found
 }
 
 // createWithConverter creates an assignment using the given field converter.
